@@ -438,3 +438,44 @@ Proof.
       rewrite Z.mod_pow2_bits_high by lia. apply andb_false_r. }
   rewrite <- Z.lxor_lor by exact E. symmetry. apply Z.add_nocarry_lxor. exact E.
 Qed.
+
+(* ------------------------------------------------------------------ *)
+(** * Bytes of a bit string *)
+
+Lemma byte_bits_value8 bs : length bs = 8%nat -> byte_bits (bits_value bs) = bs.
+Proof.
+  intros H.
+  destruct bs as [|b0 [|b1 [|b2 [|b3 [|b4 [|b5 [|b6 [|b7 [|? ?]]]]]]]]]; try discriminate.
+  destruct b0, b1, b2, b3, b4, b5, b6, b7; reflexivity.
+Qed.
+
+Lemma bits_value_is_byte bs : length bs = 8%nat -> is_byte (bits_value bs).
+Proof.
+  intros H. pose proof (bits_value_bound bs) as B. unfold len in B. rewrite H in B. exact B.
+Qed.
+
+Lemma unpack_bytes_props k : forall bits, length bits = (8 * k)%nat ->
+  length (unpack_bytes k bits) = k /\ bytes_ok (unpack_bytes k bits) /\
+  bytes_bits (unpack_bytes k bits) = bits.
+Proof.
+  induction k as [|k IH]; intros bits H.
+  - destruct bits; [|discriminate]. repeat split. constructor.
+  - cbn [unpack_bytes].
+    assert (L8 : length (firstn 8 bits) = 8%nat) by (rewrite firstn_length; lia).
+    destruct (IH (skipn 8 bits)) as (I1 & I2 & I3); [rewrite skipn_length; lia|].
+    split; [cbn [length]; now rewrite I1|]. split.
+    + constructor; auto. now apply bits_value_is_byte.
+    + rewrite bytes_bits_cons, I3, byte_bits_value8 by exact L8. apply firstn_skipn.
+Qed.
+
+Lemma unpack_bytes_length k bits : length (unpack_bytes k bits) = k.
+Proof. revert bits; induction k; intros bits; cbn [unpack_bytes length]; auto. Qed.
+
+Lemma lor_add k hi lo : 0 <= k -> 0 <= lo < 2 ^ k -> hi mod 2 ^ k = 0 -> Z.lor hi lo = hi + lo.
+Proof.
+  intros Hk Hlo Hhi.
+  assert (0 < 2 ^ k) by (apply Z.pow_pos_nonneg; lia).
+  assert (E : hi = hi / 2 ^ k * 2 ^ k).
+  { rewrite Z.mul_comm. apply Z.div_exact; lia. }
+  rewrite E at 1 2. apply lor_mul_pow2_add; auto.
+Qed.
